@@ -310,6 +310,14 @@ func init() {
 	})
 	reg("strings.Index", func(ex *Exec, fn *ssa.Function, a []Value) Value { return SeqIndexOf(a[0].(*Term), a[1].(*Term)) })
 	reg("strings.IndexByte", func(ex *Exec, fn *ssa.Function, a []Value) Value {
+		if bt := a[1].(*Term); bt.IsLit() {
+			if k, found, ok := ex.byteVectorIndex(a[0].(*Term), StrLit(string([]byte{byte(bt.I.Int64())}))); ok {
+				if !found {
+					return IntLit(-1)
+				}
+				return IntLit(int64(k))
+			}
+		}
 		return SeqIndexOf(a[0].(*Term), SeqUnit(a[1].(*Term)))
 	})
 	reg("strings.Cut", func(ex *Exec, fn *ssa.Function, a []Value) Value {
@@ -317,6 +325,14 @@ func init() {
 		if s.IsLit() && sep.IsLit() {
 			b, af, f := strings.Cut(s.S, sep.S)
 			return Tuple{StrLit(b), StrLit(af), BoolLit(f)}
+		}
+		if k, found, ok := ex.byteVectorIndex(s, sep); ok {
+			// a byte vector (concrete length) and a one-byte separator: position decided byte by byte
+			bs, _ := seqBytes(s)
+			if !found {
+				return Tuple{s, StrLit(""), tFalse}
+			}
+			return Tuple{seqFromBytes(bs[:k]), seqFromBytes(bs[k+1:]), tTrue}
 		}
 		if ex.Branch(SeqContains(s, sep)) {
 			i := SeqIndexOf(s, sep)
@@ -1028,4 +1044,29 @@ func (ex *Exec) fmtErrorf(f *Term, args SliceV) Value {
 		obj := ex.newObj(&StructV{Fields: []Value{msg, sl}}, wt)
 		return Iface{T: types.NewPointer(wt), V: Ptr{Obj: obj}}
 	}
+}
+
+// byteVectorIndex: first position of the one-byte literal sep in the byte vector s, forking on the symbolic
+// bytes only. ok=false if s is not a byte vector with a symbolic byte or sep is not a one-byte literal.
+func (ex *Exec) byteVectorIndex(s, sep *Term) (k int, found bool, ok bool) {
+	if !sep.IsLit() || len(sep.S) != 1 || s.IsLit() {
+		return 0, false, false
+	}
+	bs, isVec := seqBytes(s)
+	if !isVec {
+		return 0, false, false
+	}
+	c := ByteLit(sep.S[0])
+	for i, b := range bs {
+		if b.IsLit() {
+			if byte(b.I.Int64()) == sep.S[0] {
+				return i, true, true
+			}
+			continue
+		}
+		if ex.Branch(Eq(b, c)) {
+			return i, true, true
+		}
+	}
+	return 0, false, true
 }
